@@ -292,9 +292,16 @@ def finish(mod, tier, seed, agg, problems, t0, ncases, exhaustive=False, extra=N
     for name, minimum in floors.items():
         if agg["counters"].get(name, 0) < minimum:
             inconclusive.append("monitor counter %s=%d below floor %d" % (name, agg["counters"].get(name, 0), minimum))
+    private_not_entered = []
     for fn in getattr(mod, "MUST_REACH", []):
         if agg["reached"] and not any(r.endswith(fn) for r in agg["reached"]):
-            inconclusive.append("anchored function %s never entered" % fn)
+            last = fn.split(".")[-1]
+            if last.startswith("_") and not last.startswith("__"):
+                # a private helper is the code's own business: a refactoring may rename, inline or bypass it.  Its absence is
+                # reported in the evidence; what makes a run inconclusive are the public entry points and the monitors' floors
+                private_not_entered.append(fn)
+            else:
+                inconclusive.append("anchored function %s never entered" % fn)
     if len(agg["sigs"]) < 2:
         inconclusive.append("fewer than 2 distinct non-trivial cases")
 
@@ -311,6 +318,7 @@ def finish(mod, tier, seed, agg, problems, t0, ncases, exhaustive=False, extra=N
         "violations_by_mechanism": dict(agg["viol_by_mech"]),
         "known_findings_seen": sorted({k["mechanism"] for _, k in known}),
         "inconclusive_reasons": inconclusive,
+        "private_anchors_not_entered": private_not_entered,
     }
     if agg.get("lines"):
         try:
